@@ -60,6 +60,9 @@ func (e *Engine) builtin(g *G, b *ssa.Builtin, args []Value, argTypes []types.Ty
 			if x.len == 0 {
 				return s
 			}
+			if x.obj.cells == nil || (s.len+x.len)*x.esz > sparseThreshold {
+				return e.appendBig(s, x, et)
+			}
 			cells := make([]Value, x.len*x.esz)
 			for i := range cells {
 				cells[i] = x.obj.get(x.off + i)
@@ -86,13 +89,7 @@ func (e *Engine) builtin(g *G, b *ssa.Builtin, args []Value, argTypes []types.Ty
 			if n == 0 {
 				return BV(64, 0)
 			}
-			tmp := make([]Value, n*src.esz)
-			for i := range tmp {
-				tmp[i] = src.obj.get(src.off + i)
-			}
-			for i, v := range tmp {
-				e.set(dst.obj, dst.off+i, v)
-			}
+			e.copyRange(dst.obj, dst.off, src.obj, src.off, n*src.esz)
 			return BV(64, uint64(n))
 		}
 	case "delete":
@@ -244,9 +241,109 @@ func (e *Engine) appendCells(s Slice, cells []Value, esz int, et types.Type) Sli
 		}
 	}
 	o := e.newArrayObj(et, newcap)
+	if o.cells == nil {
+		if s.len > 0 {
+			e.copyRange(o, 0, s.obj, s.off, s.len*esz)
+		}
+		for i, v := range cells {
+			e.set(o, s.len*esz+i, v)
+		}
+		return Slice{obj: o, off: 0, len: need, cap: newcap, esz: esz}
+	}
 	for i := 0; i < s.len*esz; i++ {
 		o.cells[i] = s.obj.get(s.off + i)
 	}
 	copy(o.cells[s.len*esz:], cells)
 	return Slice{obj: o, off: 0, len: need, cap: newcap, esz: esz}
+}
+
+// appendBig is append(s, x...) for slices large enough to live in sparse objects: same
+// growth rule as appendCells, cells moved with copyRange.
+func (e *Engine) appendBig(s Slice, x Slice, et types.Type) Slice {
+	esz := x.esz
+	n := x.len
+	if s.obj != nil && s.len+n <= s.cap {
+		e.copyRange(s.obj, s.off+s.len*esz, x.obj, x.off, n*esz)
+		s.len += n
+		return s
+	}
+	need := s.len + n
+	newcap := s.cap * 2
+	if s.cap >= 256 {
+		newcap = s.cap + s.cap/4 + 192
+	}
+	if newcap < need {
+		newcap = need
+	}
+	o := e.newArrayObj(et, newcap)
+	if s.len > 0 {
+		e.copyRange(o, 0, s.obj, s.off, s.len*esz)
+	}
+	e.copyRange(o, s.len*esz, x.obj, x.off, n*esz)
+	return Slice{obj: o, off: 0, len: need, cap: newcap, esz: esz}
+}
+
+// copyRange moves n cells (memmove semantics). For paged (large) sources whole zero
+// pages are skipped.
+func (e *Engine) copyRange(dst *Obj, doff int, src *Obj, soff, n int) {
+	if n <= 0 {
+		return
+	}
+	overlap := src == dst && soff < doff+n && doff < soff+n
+	if src.cells != nil || n <= pageSize || overlap || !sameValue(src.zero, dstZero(dst)) {
+		tmp := make([]Value, n)
+		for i := range tmp {
+			tmp[i] = src.get(soff + i)
+		}
+		for i, v := range tmp {
+			e.set(dst, doff+i, v)
+		}
+		return
+	}
+	for i := 0; i < n; {
+		// segment inside one source page
+		sp := (soff + i) >> pageBits
+		j := ((sp + 1) << pageBits) - soff
+		if j > n {
+			j = n
+		}
+		pg := src.pages[sp]
+		if pg != nil {
+			for k := i; k < j; k++ {
+				e.set(dst, doff+k, pg[(soff+k)&(pageSize-1)])
+			}
+		} else if dst.cells != nil {
+			for k := i; k < j; k++ {
+				e.set(dst, doff+k, src.zero)
+			}
+		} else {
+			for k := i; k < j; {
+				dp := (doff + k) >> pageBits
+				m := ((dp + 1) << pageBits) - doff
+				if m > j {
+					m = j
+				}
+				if dst.pages[dp] != nil {
+					for q := k; q < m; q++ {
+						e.set(dst, doff+q, src.zero)
+					}
+				}
+				k = m
+			}
+		}
+		i = j
+	}
+}
+
+func dstZero(o *Obj) Value {
+	if o.cells == nil {
+		return o.zero
+	}
+	return zeroCell(o.typ)
+}
+
+func sameValue(a, b Value) bool {
+	ta, ok1 := a.(*Term)
+	tb, ok2 := b.(*Term)
+	return ok1 && ok2 && ta == tb
 }
